@@ -132,12 +132,13 @@ var solverCmd = map[string][]string{
 	"z3":    {"z3", "-smt2"},
 	"cvc5":  {"cvc5", "--lang=smt2"},
 	"z3cs":  {"z3-new", "-smt2", "smt.case_split=3"},
+	"z3qi":  {"z3-new", "-smt2", "smt.qi.eager_threshold=3"},
 }
 
 func runSolver(solver, file string, timeout time.Duration) (status, out string, ms int64) {
 	args := append([]string{}, solverCmd[solver][1:]...)
 	switch solver {
-	case "z3new", "z3", "z3cs":
+	case "z3new", "z3", "z3cs", "z3qi":
 		args = append(args, fmt.Sprintf("-T:%d", int(timeout.Seconds())+1))
 	case "cvc5":
 		args = append(args, fmt.Sprintf("--tlimit=%d", timeout.Milliseconds()))
@@ -347,12 +348,16 @@ func solveOne(eng *Engine, fv *funcVC, k, id int, opt solveOpts) *Result {
 		// stage 1: the fastest solver alone, briefly
 		short := opt.timeout
 		type a1 struct{ s, st, out string }
-		c1 := make(chan a1, 2)
+		c1 := make(chan a1, 3)
 		first := []string{opt.solvers[0]}
 		for _, s := range opt.solvers {
 			if s == "cvc5" && opt.solvers[0] != "cvc5" {
 				first = append(first, s)
 			}
+		}
+		if opt.solvers[0] == "z3new" {
+			first = append(first, "z3qi")
+			files["z3qi"] = files["z3new"]
 		}
 		for _, s := range first {
 			go func(s string) {
